@@ -155,13 +155,143 @@ end TM.Gql
 namespace TM.Gql
 open TM
 
+
+theorem lookup_none_not_mem {α : Type} (k : Nat) (l : List (Nat × α)) (h : lookup k l = none) : k ∉ l.map Prod.fst := by
+  induction l with
+  | nil => simp
+  | cons a r ih =>
+    obtain ⟨k', v⟩ := a
+    simp only [lookup] at h
+    by_cases e : k = k'
+    · simp [e] at h
+    · simp only [e, if_false] at h
+      simp only [List.map_cons, List.mem_cons, not_or]
+      exact ⟨e, ih h⟩
+
+theorem groupByAlias_nodup (l : List Sel) : ((groupByAlias l).map Prod.fst).Nodup := by
+  induction l with
+  | nil => simp [groupByAlias]
+  | cons s r ih =>
+    simp only [groupByAlias]
+    cases hl : lookup s.alias (groupByAlias r) with
+    | none =>
+      simp only [List.map_cons, List.nodup_cons]
+      exact ⟨lookup_none_not_mem _ _ hl, ih⟩
+    | some g =>
+      simp only [List.map_map]
+      have : (Prod.fst ∘ fun (x : Nat × List Sel) => if x.1 = s.alias then (x.1, s :: x.2) else (x.1, x.2)) = Prod.fst := by
+        funext x; by_cases e : x.1 = s.alias <;> simp [e]
+      have e2 : (List.map (Prod.fst ∘ fun (x : Nat × List Sel) => match x with | (a, l) => if a = s.alias then (a, s :: l) else (a, l)) (groupByAlias r)) =
+          List.map Prod.fst (groupByAlias r) := by
+        apply List.map_congr_left
+        intro x _
+        obtain ⟨a, l⟩ := x
+        by_cases e : a = s.alias <;> simp [e]
+      rw [e2]; exact ih
+
+theorem mergeGroup_alias {a : Nat} {g : List Sel} {fl : Flat} (h : mergeGroup a g = some fl) : fl.alias = a := by
+  match g with
+  | [] => simp [mergeGroup] at h
+  | [s] => simp [mergeGroup] at h; rw [← h]
+  | s :: t :: rest =>
+    simp only [mergeGroup] at h
+    cases hs : s.sub with
+    | none => simp [hs] at h; rw [← h]
+    | some sub => simp [hs] at h; rw [← h]
+
+theorem flatten_nodup (tOk : Nat → Bool) (f : Nat) (ss : SelSet) : ((flatten tOk f ss).map Flat.alias).Nodup := by
+  unfold flatten
+  have hk := groupByAlias_nodup (visit tOk f ss).reverse
+  generalize groupByAlias (visit tOk f ss).reverse = G at hk
+  -- aliases of the result are a sublist of the reversed keys
+  have hsub : ∀ (G : List (Nat × List Sel)), ((G.map fun (a, l) => mergeGroup a l.reverse).filterMap id).map Flat.alias
+      |>.Sublist (G.map Prod.fst) := by
+    intro G
+    induction G with
+    | nil => simp
+    | cons x G ih =>
+      obtain ⟨a, l⟩ := x
+      simp only [List.map_cons, List.filterMap_cons, id_eq]
+      cases hm : mergeGroup a l.reverse with
+      | none => simp only; exact List.Sublist.cons _ ih
+      | some fl => simp only [List.map_cons, mergeGroup_alias hm]; exact List.Sublist.cons₂ _ ih
+  rw [← List.map_reverse]
+  have := hsub G.reverse
+  refine List.Nodup.sublist this ?_
+  rw [List.map_reverse]
+  unfold List.Nodup at hk ⊢
+  rw [List.pairwise_reverse]
+  exact hk.imp (fun h => fun e => h e.symm)
+
+theorem lookup_append_left {α : Type} (k : Nat) (l r : List (Nat × α)) (v : α) (h : lookup k l = some v) :
+    lookup k (l ++ r) = some v := by
+  induction l with
+  | nil => simp [lookup] at h
+  | cons a t ih =>
+    obtain ⟨k', x⟩ := a
+    simp only [lookup, List.cons_append] at h ⊢
+    by_cases e : k = k'
+    · simpa [e] using h
+    · simp only [e, if_false] at h ⊢; exact ih h
+
+theorem lookup_zip_nodup {α β : Type} (g : α → Nat) : ∀ (l : List α) (r : List (Nat × β)),
+    (l.map g).Nodup → (∀ p ∈ l.zip r, p.2.1 = g p.1) → ∀ p ∈ l.zip r, lookup (g p.1) r = some p.2.2 := by
+  intro l
+  induction l with
+  | nil => intro r _ _ p hp; simp at hp
+  | cons a l ih =>
+    intro r hnd hk p hp
+    cases r with
+    | nil => simp at hp
+    | cons b r =>
+      obtain ⟨kb, vb⟩ := b
+      simp only [List.map_cons, List.nodup_cons] at hnd
+      simp only [List.zip_cons_cons, List.mem_cons] at hp
+      have hb : kb = g a := hk (a, (kb, vb)) (by simp)
+      rcases hp with rfl | hp
+      · simp [lookup, hb]
+      · have hne : g p.1 ≠ kb := by
+          rw [hb]
+          intro e
+          exact hnd.1 (by rw [← e]; exact List.mem_map.mpr ⟨p.1, (List.of_mem_zip hp).1, rfl⟩)
+        simp only [lookup, hne, if_false]
+        exact ih r hnd.2 (fun q hq => hk q (by simp [hq])) p hp
+
 /-- the per-level statement of response conformance -/
 def ConfLevel (σ : Schema) (f : Nat) : Prop :=
   ∀ (p : List PE) (ty : Ty) (ss : Option SelSet) (v : Val) (j : J), validF σ f ty ss = true → wellTyped σ f ty v = true →
     refEval σ f p ty ss v = .ok j → conforms σ f ty ss j = true
 
+theorem mem_zip_of_mem {α β : Type} : ∀ (l : List α) (r : List β), r.length = l.length → ∀ x ∈ l, ∃ y, (x, y) ∈ l.zip r := by
+  intro l
+  induction l with
+  | nil => intro r _ x hx; cases hx
+  | cons a l ih =>
+    intro r hlen x hx
+    cases r with
+    | nil => simp at hlen
+    | cons b r =>
+      simp only [List.mem_cons] at hx
+      rcases hx with rfl | hx
+      · exact ⟨b, by simp⟩
+      · obtain ⟨y, hy⟩ := ih r (by simpa using hlen) x hx
+        exact ⟨y, by simp [hy]⟩
+
+theorem keyShape_any {key : List (Nat × J)} (h : keyShape key = true) :
+    key.any isKeyEntry = true := by
+  match key with
+  | [(0, .sc _)] => simp [isKeyEntry]
+  | [(0, .null)] => simp [isKeyEntry]
+  | [] => simp [keyShape] at h
+  | [(k+1, _)] => simp [keyShape] at h
+  | [(0, .by _)] => simp [keyShape] at h
+  | [(0, .arr _)] => simp [keyShape] at h
+  | [(0, .obj _)] => simp [keyShape] at h
+  | _ :: _ :: _ => simp [keyShape] at h
+
 theorem objConf_of (σ : Schema) (f : Nat) (lvl : ConfLevel σ f) (n : Nat) (od : ObjDef) (fields : List (Nat × Val))
     (p : List PE) (sels : List Flat) (j : J)
+    (hnd : (sels.map Flat.alias).Nodup)
     (hv : validF.flatsOk σ f od sels = true)
     (hwt : (od.fields.all fun fd => wellTyped σ f fd.ty ((lookup fd.src fields).getD .null)) = true)
     (h : refEval.refObject σ f p n od fields sels = .ok j) :
@@ -172,38 +302,43 @@ theorem objConf_of (σ : Schema) (f : Nat) (lvl : ConfLevel σ f) (n : Nat) (od 
   obtain ⟨hkl, hkc⟩ := refKey_conf hk
   unfold conforms.objConf
   simp only [Bool.and_eq_true, beq_iff_eq, List.length_append, hlen, hkl, true_and]
-  have htake : (kvs ++ key).take sels.length = kvs := by rw [← hlen]; simp
-  have hdrop : (kvs ++ key).drop sels.length = key := by rw [← hlen]; simp
-  rw [htake, hdrop]
-  refine ⟨?_, hkc⟩
-  rw [List.all_eq_true]
-  intro pr hpr
-  obtain ⟨fl, kv⟩ := pr
-  have hsel := hz (fl, kv) hpr
-  have hfl : fl ∈ sels := (List.of_mem_zip hpr).1
-  unfold validF.flatsOk at hv
-  rw [List.all_eq_true] at hv
-  have hvf := hv fl hfl
-  simp only at hsel ⊢
-  unfold refEval.refSel at hsel
-  unfold conforms.selConf
-  by_cases h0 : fl.name = 0
-  · simp only [h0, if_true] at hsel ⊢
-    injection hsel with hsel
-    subst hsel
-    simp
-  · simp only [h0, if_false] at hsel hvf ⊢
-    cases hfd : findField fl.name od.fields with
-    | none => simp [hfd] at hvf
-    | some fd =>
-      simp only [hfd] at hsel hvf ⊢
-      obtain ⟨r, hr, hkv⟩ := bind_ok' hsel
-      injection hkv with hkv
-      subst hkv
-      rw [List.all_eq_true] at hwt
-      have hw := hwt fd (findField_mem hfd).1
-      simp only [beq_self_eq_true, Bool.true_and]
-      exact lvl _ _ _ _ _ hvf hw hr
+  have halias : ∀ pr ∈ sels.zip kvs, pr.2.1 = Flat.alias pr.1 := fun pr hpr => refSel_alias (hz pr hpr)
+  refine ⟨?_, ?_⟩
+  · rw [List.all_eq_true]
+    intro fl hfl
+    obtain ⟨kv, hpr⟩ := mem_zip_of_mem sels kvs hlen fl hfl
+    have hl := lookup_zip_nodup Flat.alias sels kvs hnd halias (fl, kv) hpr
+    simp only at hl
+    rw [lookup_append_left _ _ _ _ hl]
+    simp only
+    have hsel := hz (fl, kv) hpr
+    unfold validF.flatsOk at hv
+    rw [List.all_eq_true] at hv
+    have hvf := hv fl hfl
+    simp only at hsel
+    unfold refEval.refSel at hsel
+    unfold conforms.selConf
+    by_cases h0 : fl.name = 0
+    · simp only [h0, if_true] at hsel ⊢
+      injection hsel with hsel
+      subst hsel
+      simp
+    · simp only [h0, if_false] at hsel hvf ⊢
+      cases hfd : findField fl.name od.fields with
+      | none => simp [hfd] at hvf
+      | some fd =>
+        simp only [hfd] at hsel hvf ⊢
+        obtain ⟨r, hr, hkv⟩ := bind_ok' hsel
+        injection hkv with hkv
+        subst hkv
+        rw [List.all_eq_true] at hwt
+        exact lvl _ _ _ _ _ hvf (hwt fd (findField_mem hfd).1) hr
+  · cases hkey : od.key with
+    | none => rfl
+    | some k =>
+      simp only [hkey] at hkc ⊢
+      rw [List.any_append, keyShape_any hkc]
+      simp
 
 /-- a non-null, well-typed value never evaluates to `null` -/
 theorem result_nonNull (σ : Schema) : ∀ (f : Nat) (p : List PE) (t : Ty) (ss : Option SelSet) (v : Val) (j : J),
@@ -354,7 +489,7 @@ theorem conforms_all (σ : Schema) : ∀ f, ConfLevel σ f := by
               simp only [Val.isObj, if_true, Val.fields] at hr
               have hwf : (od.fields.all fun fd => wellTyped σ f fd.ty ((lookup fd.src fields).getD .null)) = true := by
                 simp only [wellTyped, ho, Bool.and_eq_true] at hw; exact hw.2
-              obtain ⟨kvs, rfl, hc⟩ := objConf_of σ f ih n od fields p _ j hv' hwf hr
+              obtain ⟨kvs, rfl, hc⟩ := objConf_of σ f ih n od fields p _ j (flatten_nodup _ _ _) hv' hwf hr
               unfold conforms; simp only [ho]; exact hc
             | null => simp [Val.isObj] at hr; subst hr; simp [conforms]
             | sc x => simp [wellTyped] at hw
@@ -378,7 +513,7 @@ theorem conforms_all (σ : Schema) : ∀ f, ConfLevel σ f := by
               simp only [ho] at hv'
               have hwf : (od.fields.all fun fd => wellTyped σ f fd.ty ((lookup fd.src fields).getD .null)) = true := by
                 have := hw.2; simp only [ho] at this; exact this
-              obtain ⟨kvs, rfl, hc⟩ := objConf_of σ f ih m od fields p _ j hv' hwf hr
+              obtain ⟨kvs, rfl, hc⟩ := objConf_of σ f ih m od fields p _ j (flatten_nodup _ _ _) hv' hwf hr
               simp only [conforms, List.any_eq_true]
               exact ⟨m, hm, by simp only [ho]; exact hc⟩
           | null => simp [unionTag] at hr; subst hr; simp [conforms]
